@@ -160,3 +160,62 @@ func vp_C07_power_levels() {
 	vpReach("accepted", got)
 	vpReach("rejected-for-level", !got && joined && a >= sd && change != "bad-user-id")
 }
+
+// vp:check C07 both configs=version:12|org.matrix.hydra.11 K=12 timeout=900
+// vp_C07_creator_power_levels: in room version 12 a room creator (sender of the create event, or an additional
+// creator) has more power than any level: every change to a threshold, a per-event level, a notification level or
+// another (non-creator) user's level is allowed, whatever the old and new 64-bit values are; the same change by an
+// ordinary user of symbolic level follows the usual rule.
+func vp_C07_creator_power_levels() {
+	ver := RoomVersion(vpConfig("version"))
+	room := vpRoomIDFor(ver, vpCreateID12)
+	auth, _ := NewAuthEvents(nil)
+	_ = auth.AddEvent(vpMkEvent(ver, vpCreateID12, "", vpAlice, spec.MRoomCreate, vpStrPtr(""), vpJObj("room_version", string(ver), "additional_creators", vpJArr(vpCarol))))
+	sender := vpChoice("sender", vpAlice, vpCarol, vpBob) // creator, additional creator, ordinary user
+	b, d := vpNondetI64("old.bob"), vpNondetI64("old.dave")
+	oldV := vpNondetI64("old.value")
+	newV := vpNondetI64("new.value")
+	// events of this room version carry only integers of at most 53 bits (enforced canonical JSON)
+	const lim = int64(1)<<53 - 1
+	vpAssume(b >= -lim && b <= lim && d >= -lim && d <= lim && oldV >= -lim && oldV <= lim && newV >= -lim && newV <= lim)
+	where := vpChoice("where", "ban", "notifications", "events", "users")
+	mk := func(v int64) []byte {
+		ban, notif, events, dave := int64(50), int64(50), int64(50), d
+		switch where {
+		case "ban":
+			ban = v
+		case "notifications":
+			notif = v
+		case "events":
+			events = v
+		default:
+			dave = v
+		}
+		return vpJObj("users", vpJObj(vpBob, b, "@d:x", dave), "ban", ban, "notifications", vpJObj("room", notif), "events", vpJObj("m.room.name", events))
+	}
+	if where == "users" {
+		oldV = d
+	}
+	_ = auth.AddEvent(vpMkEvent(ver, "$pl:x", room, vpAlice, spec.MRoomPowerLevels, vpStrPtr(""), mk(oldV)))
+	_ = auth.AddEvent(vpMkEvent(ver, "$ms:x", room, sender, spec.MRoomMember, vpStrPtr(sender), vpJObj("membership", spec.Join)))
+	ev := vpMkEvent(ver, "$npl:x", room, sender, spec.MRoomPowerLevels, vpStrPtr(""), mk(newV))
+	got := Allowed(ev, auth, vpUserIDForSender) == nil
+	if sender != vpBob {
+		vpAssert("creator-may-change-any-level", got)
+	} else {
+		want := b >= 50 // state_default
+		if newV != oldV {
+			if where == "users" {
+				want = want && oldV < b && newV <= b
+			} else {
+				want = want && oldV <= b && newV <= b
+			}
+		}
+		if where == "notifications" && newV != oldV && oldV == b {
+			return // departure D13: changing a notification level equal to the sender's is refused (either verdict)
+		}
+		vpAssert("ordinary-user-verdict", got == want)
+	}
+	vpReach("accepted", got)
+	vpReach("rejected", !got)
+}
